@@ -768,8 +768,10 @@ func (rc *RegClient) imageCopyOpt(ctx context.Context, refSrc ref.Ref, refTgt re
 			}
 		} else {
 			if errors.Is(err, context.Canceled) {
-				// try to find a better error message than context canceled
-				err = <-waitCh
+				// try to find a better error message than context canceled, a child that finished does not clear the error
+				if curErr := <-waitCh; curErr != nil {
+					err = curErr
+				}
 			} else {
 				<-waitCh
 			}
@@ -922,8 +924,10 @@ func (rc *RegClient) imageCopyOpt(ctx context.Context, refSrc ref.Ref, refTgt re
 			}
 		} else {
 			if errors.Is(err, context.Canceled) {
-				// try to find a better error message than context canceled
-				err = <-waitCh
+				// try to find a better error message than context canceled, a child that finished does not clear the error
+				if curErr := <-waitCh; curErr != nil {
+					err = curErr
+				}
 			} else {
 				<-waitCh
 			}
